@@ -53,6 +53,7 @@ type Report struct {
 	MapRangeUncontrol   []string `json:"map_range_uncontrolled"`
 	SyncMapRange        int      `json:"syncmap_range_rewritten"`
 	SelectSites         []string `json:"uncontrolled_select_sites"`
+	SelectRewritten     int      `json:"select_rewritten"`
 	TimeNowSites        []string `json:"time_now_sites"`
 	RandSites           []string `json:"rand_sites"`
 	AfterFuncSites      []string `json:"afterfunc_sites"`
@@ -147,9 +148,9 @@ func main() {
 	writeSites()
 	b, _ := json.MarshalIndent(&rep, "", " ")
 	os.WriteFile(filepath.Join(root, "verifsim", "report.json"), b, 0o644)
-	fmt.Printf("instrumented %d packages, %d files: %d yields, %d go, %d lock probes, %d once, %d map ranges (+%d uncontrolled), %d sync.Map ranges, %d selects\n",
+	fmt.Printf("instrumented %d packages, %d files: %d yields, %d go, %d lock probes, %d once, %d map ranges (+%d uncontrolled), %d sync.Map ranges, %d selects rewritten (+%d uncontrolled)\n",
 		rep.Packages, rep.Files, rep.YieldSites, rep.GoRewritten, rep.LockProbes, rep.OnceWrapped,
-		rep.MapRangeRewritten, len(rep.MapRangeUncontrol), rep.SyncMapRange, len(rep.SelectSites))
+		rep.MapRangeRewritten, len(rep.MapRangeUncontrol), rep.SyncMapRange, rep.SelectRewritten, len(rep.SelectSites))
 }
 
 func writeSites() {
@@ -419,7 +420,12 @@ func instrumentFile(p *packages.Package, f *ast.File, path string) *fileEdits {
 			instrList(x.Body)
 		case *ast.SelectStmt:
 			clauseBlocks[x.Body] = true
-			rep.SelectSites = append(rep.SelectSites, where(x.Pos()))
+			switch rewriteSelect(fe, x, off, text, &rep) {
+			case selRewritten:
+				rep.SelectRewritten++
+			case selUncontrolled:
+				rep.SelectSites = append(rep.SelectSites, where(x.Pos()))
+			}
 		}
 		return true
 	})
@@ -493,6 +499,104 @@ func instrumentFile(p *packages.Package, f *ast.File, path string) *fileEdits {
 	nameEnd := off(f.Name.End())
 	fe.add(nameEnd, nameEnd, fmt.Sprintf("; import verifsim %q", modPath+"/verifsim"))
 	return fe
+}
+
+const (
+	selNoChoice = iota // fewer than two communication cases: nothing for the runtime to choose
+	selRewritten
+	selUncontrolled
+)
+
+var selectSiteCounter int
+
+// rewriteSelect turns a select statement with two or more communication cases into a switch over
+// verifsim.Select (see verifsim/selectseam.go), keeping every line where it was.
+func rewriteSelect(fe *fileEdits, x *ast.SelectStmt, off func(token.Pos) int, text func(ast.Node) string, rep *Report) int {
+	type cs struct {
+		cc       *ast.CommClause
+		arg      string // verifsim.SelRecv(ch) / verifsim.SelSend(ch, v)
+		prologue string // assignment of the received value
+	}
+	var cases []cs
+	hasDefault := false
+	for _, st := range x.Body.List {
+		cc, ok := st.(*ast.CommClause)
+		if !ok {
+			return selUncontrolled
+		}
+		if cc.Comm == nil {
+			hasDefault = true
+			continue
+		}
+		c := cs{cc: cc}
+		recvOf := func(e ast.Expr) (string, bool) {
+			u, ok := e.(*ast.UnaryExpr)
+			if !ok || u.Op != token.ARROW || containsFuncLit(u.X) {
+				return "", false
+			}
+			return text(u.X), true
+		}
+		switch m := cc.Comm.(type) {
+		case *ast.SendStmt:
+			if containsFuncLit(m.Chan) || containsFuncLit(m.Value) {
+				return selUncontrolled
+			}
+			c.arg = fmt.Sprintf("verifsim.SelSend(%s, %s)", text(m.Chan), text(m.Value))
+		case *ast.ExprStmt:
+			ch, ok := recvOf(m.X)
+			if !ok {
+				return selUncontrolled
+			}
+			c.arg = fmt.Sprintf("verifsim.SelRecv(%s)", ch)
+		case *ast.AssignStmt:
+			if len(m.Rhs) != 1 || len(m.Lhs) < 1 || len(m.Lhs) > 2 {
+				return selUncontrolled
+			}
+			ch, ok := recvOf(m.Rhs[0])
+			if !ok {
+				return selUncontrolled
+			}
+			c.arg = fmt.Sprintf("verifsim.SelRecv(%s)", ch)
+			lhs := text(m.Lhs[0])
+			rhs := fmt.Sprintf("verifsim.SelVal(%s, __vs.V)", ch)
+			if len(m.Lhs) == 2 {
+				lhs += ", " + text(m.Lhs[1])
+				rhs += ", __vs.Ok"
+			}
+			c.prologue = fmt.Sprintf(" %s %s %s;", lhs, m.Tok.String(), rhs)
+			if m.Tok == token.DEFINE {
+				// a received variable the body never uses is legal in a select, not in a plain assignment
+				for _, l := range m.Lhs {
+					if id, ok := l.(*ast.Ident); ok && id.Name != "_" {
+						c.prologue += fmt.Sprintf(" _ = %s;", id.Name)
+					}
+				}
+			}
+		default:
+			return selUncontrolled
+		}
+		cases = append(cases, c)
+	}
+	if len(cases) < 2 {
+		return selNoChoice
+	}
+	selectSiteCounter++
+	var args []string
+	for _, c := range cases {
+		args = append(args, c.arg)
+	}
+	head := fmt.Sprintf("switch __vs := verifsim.Select(%d, %v, %s); __vs.I {", selectSiteCounter, hasDefault, strings.Join(args, ", "))
+	nl := strings.Count(string(fe.src[off(x.Select):off(x.Body.Lbrace)+1]), "\n")
+	fe.add(off(x.Select), off(x.Body.Lbrace)+1, head+strings.Repeat("\n", nl))
+	for i, c := range cases {
+		nl := strings.Count(string(fe.src[off(c.cc.Case):off(c.cc.Colon)+1]), "\n")
+		fe.add(off(c.cc.Case), off(c.cc.Colon)+1, fmt.Sprintf("case %d:%s", i, c.prologue)+strings.Repeat("\n", nl))
+	}
+	if !hasDefault {
+		// keeps the statement terminating where the select was (a switch needs a default for that)
+		fe.add(off(x.Body.Rbrace), off(x.Body.Rbrace), "default: panic(\"verifsim: select returned no case\"); ")
+	}
+	return selRewritten
 }
 
 // rewriteMapRange turns `for k, v := range m {` into a loop over
